@@ -111,9 +111,9 @@ def case_st(draw):
     can_w = ("w" in mode) or ("+" in mode) or ("a" in mode)
     kinds = []
     if can_r and direction != "write":
-        kinds += [read_op, read_op]
+        kinds += [read_op, read_op.map(lambda v: v)]  # distinct objects: one_of de-duplicates identical ones
     if can_w and direction != "read":
-        kinds += [write_op, write_op]
+        kinds += [write_op, write_op.map(lambda v: v)]
     if can_w:
         kinds.append(st.tuples(st.just("flush")))
     ops = draw(st.lists(st.one_of(*kinds), max_size=25))
